@@ -262,7 +262,8 @@ def run_shard(spec):
     rng = random.Random("c02/%d/%d" % (spec["seed"], spec["shard"]))
     quick = spec["tier"] == "quick"
     for _ in range(3 if quick else 50):
-        st.run_world(rng, cstream.C02_CLASSES, nblocks=rng.choice([8, 14, 22]), ncand=50 if quick else 70, bad_key_prob=0.0)
+        world = st.run_world(rng, cstream.C02_CLASSES, nblocks=rng.choice([8, 14, 22]), ncand=50 if quick else 70, bad_key_prob=0.0)
+        st.two_thread_lane(world, rng, 2 if quick else 4)
     for _ in range(1 if quick else 10):       # every candidate the first block above the checkpoint horizon
         st.run_world(rng, cstream.C02_CLASSES, nblocks=rng.choice([6, 10]), ncand=30 if quick else 50, bad_key_prob=0.0, horizon_at_head=True)
     for _ in range(1 if quick else 10):       # well-filled blocks in which ONE transaction breaks a value rule
@@ -365,6 +366,7 @@ def finalize(m, tier):
               ("conservation_checks_after_restart", c.get("conservation_checks_after_restart", 0), 100)]
     for cls in cstream.C02_CLASSES:
         floors.append(("class " + cls, c.get("by_class", {}).get(cls, 0), 8))
+    floors.append(("two_thread_switch_points", c.get("two_thread_switch_points", 0), 1500))
     if c.get("ref_valid_but_rejected", 0):
         m["inconclusive"].append("%d blocks the reference finds valid were rejected" % c["ref_valid_but_rejected"])
     return {
